@@ -718,9 +718,11 @@ def s09(tier, seed):
     rnd = random.Random(seed)
     rnd.shuffle(scen)
     run.cov["shape_classes_exported"] = len(scen)
-    n_scen = 160 if tier == "quick" else len(scen)
-    n_rand = 48 if tier == "quick" else 480
-    outs = common.pool().map(_job_bootrun_scenario, list(enumerate(scen[:n_scen])), chunksize=4)
+    n_scen = 90 if tier == "quick" else len(scen)
+    n_rand = 40 if tier == "quick" else 480
+    # every chosen shape class is realised twice: as it is, and as a twin with the same sizes but other strata / covariates
+    items = [(i, sc, tw) for i, sc in enumerate(scen[:n_scen]) for tw in (False, True)]
+    outs = common.pool().map(_job_bootrun_scenario, items, chunksize=4)
     outs += common.pool().map(_job_bootrun_random, [seed % 1000 + i for i in range(n_rand)], chunksize=2)
     traces = []
     for o in outs:
